@@ -873,3 +873,4 @@ CASES.append({'name': 'ben47r1-angle-helper-loses-its-clamp', 'props': ['C10', '
               'edits': [('oxmpl/src/base/spaces/so3_state_space.rs', '    let clamped_dot = abs_dot.min(1.0);\n    2.0 * clamped_dot.acos()', '    let clamped_dot = abs_dot;\n    2.0 * clamped_dot.acos()')]})
 CASES.append({'name': 'ben47r2-validated-cone-keeps-the-given-centre', 'props': ['C12'], 'expect': ['C12.centre'], 'patch': '/verif/selftest/benign/ben47-r2.diff',
               'edits': [('oxmpl/src/base/spaces/so3_state_space.rs', '        Ok((unit_center, max_angle.min(PI)))', '        let _ = unit_center;\n        Ok((center_rotation, max_angle.min(PI)))')]})
+benign_patch('ric18-helper-strict-skip', ALL)                 # the refactoring half of seed RIC18 with the comparison kept strict: one `connectable_milestones` helper, skip on `distance >= radius`
